@@ -4,4 +4,4 @@ cd "$(dirname "$0")/.."
 TIER="${1:-quick}"
 IDS="${2:-$(python3 -c "import json;print(' '.join(c['property_id'] for c in json.load(open('MANIFEST.json'))['checks']))")}"
 mkdir -p .work/runall
-echo $IDS | tr ' ' '\n' | xargs -P 4 -I{} bash -c "./check {} --tier $TIER > .work/runall/{}.log 2>&1; echo {} rc=\$? \$(grep -E '^{} tier=' .work/runall/{}.log | tail -1) \$(grep -c '^VIOLATION' .work/runall/{}.log) violations \$(grep -c '^KNOWN-FINDING' .work/runall/{}.log) known"
+echo $IDS | tr ' ' '\n' | xargs -P ${PAR:-4} -I{} bash -c "./check {} --tier $TIER > .work/runall/{}.log 2>&1; echo {} rc=\$? \$(grep -E '^{} tier=' .work/runall/{}.log | tail -1) \$(grep -c '^VIOLATION' .work/runall/{}.log) violations \$(grep -c '^KNOWN-FINDING' .work/runall/{}.log) known"
